@@ -385,7 +385,9 @@ func execute(s *scen, ch coop.Chooser) (res *coop.Result, clause, msg string) {
 			state = to
 			switch to {
 			case Open:
-				lastOpenT, haveOpenT = opBeg[e.w], true
+				// the instant the state word became Open (the library reads the clock for the deadline after this
+				// CAS, so deadline >= this instant + retry timeout)
+				lastOpenT, haveOpenT = e.t, true
 				openW, openEndKnown = e.w, false
 				if r := cur[e.w]; r != nil && !inExit[e.w] {
 					// HalfOpen->Open performed inside an Entry call: the roll-back of a probe that was blocked
